@@ -254,9 +254,13 @@ pub fn compare_pstate(p: &avt::verif::ParserState, pm: &PModel) -> Option<Mismat
             return mm(MisKind::HParser, format!("parser intermediate real {:?} model {:?}", p.intermediate, pm.inter));
         }
     }
-    // memoryless: right after an introducer no parameter slot may hold anything
+    // memoryless: right after an introducer nothing is collected yet.  Only the registers a dispatch
+    // at this point would read are judged (the current slot and the intermediate); whether the slots
+    // beyond are wiped now or when a separator reaches them is the implementation's business - stale
+    // content there is caught where it matters, when a dispatch hands it out (table / pair monitors)
     if matches!(pm.st, St::CsiEntry | St::DcsEntry | St::Escape) {
-        if p.cur_param != 0 || p.intermediate.is_some() || p.params.iter().any(|(cp, parts)| *cp != 0 || parts.iter().any(|v| *v != 0)) {
+        let Some((cp, parts)) = p.params.first() else { return None };
+        if p.cur_param != 0 || p.intermediate.is_some() || *cp != 0 || parts[0] != 0 {
             return mm(MisKind::HParser, format!("parser registers not clean after an introducer: {:?}", p));
         }
     }
